@@ -189,4 +189,33 @@ Proof.
     split; [eexists; reflexivity|]. right. simpl. repeat split; auto. lia.
 Qed.
 
+(** ** Contains: the first position holding an [eqb]-equal value, among all values ever enqueued *)
+
+Lemma first_index_spec l v : forall i, 0 <= i ->
+  (first_index V eqb l i v = -1 /\ forallb (fun x => negb (eqb x v)) l = true) \/
+  (exists k x, first_index V eqb l i v = i + Z.of_nat k /\
+               nth_error l k = Some x /\ eqb x v = true /\
+               forallb (fun y => negb (eqb y v)) (firstn k l) = true).
+Proof.
+  induction l as [|x t IH]; intros i Hi; simpl.
+  - left; auto.
+  - destruct (eqb x v) eqn:E.
+    + right. exists 0%nat, x. simpl. repeat split; auto. lia.
+    + destruct (IH (i + 1)) as [(A & B) | (k & y & A & B & C & D)]; [lia| |].
+      * left. simpl. split; auto.
+      * right. exists (S k), y. simpl. rewrite E. simpl. repeat split; auto. lia.
+Qed.
+
+Theorem sq_contains_first_position (q : softq) v :
+  (sq_contains V eqb q v = -1 /\ forallb (fun x => negb (eqb x v)) (sq_values V q) = true) \/
+  (exists k x, sq_contains V eqb q v = Z.of_nat k /\
+               nth_error (sq_values V q) k = Some x /\ eqb x v = true /\
+               forallb (fun y => negb (eqb y v)) (firstn k (sq_values V q)) = true).
+Proof.
+  unfold sq_contains, sq_values. rewrite sq_contains_from_spec.
+  destruct (first_index_spec (sq_list q) v 0) as [(A & B) | (k & y & A & B & C & D)]; [lia| |].
+  - left; auto.
+  - right. exists k, y. repeat split; auto.
+Qed.
+
 End Soft.
